@@ -85,3 +85,40 @@ Print Assumptions C06_gauge_table_float_ok.
 Theorem C06_dd_sequences_ok : forallb dd_ok (dd_sequences K8Ops) = true.
 Proof. exact dd_sequences_ok. Qed.
 Print Assumptions C06_dd_sequences_ok.
+
+(* ---- eject_z: the phase-tracking loop keeps  Phi(tracked) . emitted = original prefix  and emits an equal circuit ---- *)
+From Coq Require Import ZArith.
+From VF Require Import Xform.EjectZ Xform.EjectZProofs.
+
+Theorem C06_eject_z_loop_invariant : forall (G M : Type) (mul : M -> M -> M) (one : M),
+  (forall a b c, mul a (mul b c) = mul (mul a b) c) -> (forall a, mul one a = a) -> (forall a, mul a one = a) ->
+  forall (zden : nat -> Z -> M) (gden : G -> list nat -> list Z -> M) (sden : G -> nat -> nat -> M) (mden oden : G -> list nat -> M)
+         (period : Z) (allq : list nat), NoDup allq ->
+  (forall q k, (k mod period)%Z = 0%Z -> zden q k = one) ->
+  (forall q p p', zden q (p + p')%Z = mul (zden q p) (zden q p')) ->
+  (forall q q' p p', q <> q' -> mul (zden q p) (zden q' p') = mul (zden q' p') (zden q p)) ->
+  (forall g qs ph, mul (gden g qs (map (fun _ => 0%Z) qs)) (Phi M mul one zden allq ph) = mul (Phi M mul one zden allq ph) (gden g qs (map ph qs))) ->
+  (forall g a b ph, mul (sden g a b) (Phi M mul one zden allq ph) = mul (Phi M mul one zden allq (pswap ph a b)) (sden g a b)) ->
+  (forall g qs ph, mul (mden g qs) (Phi M mul one zden allq ph) = mul (Phi M mul one zden allq (preset ph qs)) (mden g qs)) ->
+  (forall g qs ph, (forall q, In q qs -> ph q = 0%Z) -> mul (oden g qs) (Phi M mul one zden allq ph) = mul (Phi M mul one zden allq ph) (oden g qs)) ->
+  forall l ph, Forall (wf G allq) l ->
+    mul (Phi M mul one zden allq (snd (loop period ph l))) (ocomp G M mul one zden gden sden mden oden (fst (loop period ph l)))
+    = mul (icomp G M mul one zden gden sden mden oden l) (Phi M mul one zden allq ph).
+Proof. exact loop_invariant. Qed.
+Print Assumptions C06_eject_z_loop_invariant.
+
+Theorem C06_eject_z_correct : forall (G M : Type) (mul : M -> M -> M) (one : M),
+  (forall a b c, mul a (mul b c) = mul (mul a b) c) -> (forall a, mul one a = a) -> (forall a, mul a one = a) ->
+  forall (zden : nat -> Z -> M) (gden : G -> list nat -> list Z -> M) (sden : G -> nat -> nat -> M) (mden oden : G -> list nat -> M)
+         (period : Z) (allq : list nat), NoDup allq ->
+  (forall q, zden q 0%Z = one) -> (forall q k, (k mod period)%Z = 0%Z -> zden q k = one) ->
+  (forall q p p', zden q (p + p')%Z = mul (zden q p) (zden q p')) ->
+  (forall q q' p p', q <> q' -> mul (zden q p) (zden q' p') = mul (zden q' p') (zden q p)) ->
+  (forall g qs ph, mul (gden g qs (map (fun _ => 0%Z) qs)) (Phi M mul one zden allq ph) = mul (Phi M mul one zden allq ph) (gden g qs (map ph qs))) ->
+  (forall g a b ph, mul (sden g a b) (Phi M mul one zden allq ph) = mul (Phi M mul one zden allq (pswap ph a b)) (sden g a b)) ->
+  (forall g qs ph, mul (mden g qs) (Phi M mul one zden allq ph) = mul (Phi M mul one zden allq (preset ph qs)) (mden g qs)) ->
+  (forall g qs ph, (forall q, In q qs -> ph q = 0%Z) -> mul (oden g qs) (Phi M mul one zden allq ph) = mul (Phi M mul one zden allq ph) (oden g qs)) ->
+  forall l, Forall (wf G allq) l ->
+    ocomp G M mul one zden gden sden mden oden (eject_z period allq l) = icomp G M mul one zden gden sden mden oden l.
+Proof. exact eject_z_correct. Qed.
+Print Assumptions C06_eject_z_correct.
